@@ -321,6 +321,15 @@ func c18Server(res *vlib.Result, obj string, remote bool) {
 			_ = os.Symlink(e.decoy+"/tfile", announced)
 		case "fifo":
 			_ = syscall.Mkfifo(announced, 0o700)
+		case "unix-socket-0700":
+			// a unix-domain socket at the path, owner-only
+			if l, err := net.Listen("unix", announced); err == nil {
+				if ul, ok := l.(*net.UnixListener); ok {
+					ul.SetUnlinkOnClose(false)
+				}
+				_ = l.Close()
+			}
+			_ = os.Chmod(announced, 0o700)
 		}
 		_ = p.sendMsg(refcodec.EncInt(0), false)
 		_, _ = p.recvMsg()
@@ -418,7 +427,7 @@ func c18Paths(peer string, thorough bool) []string {
 func C18Plan() *vlib.Plan {
 	p := &vlib.Plan{
 		Property: "C18", Level: "exploration", Workers: 1, Quiet: true,
-		Rule:   "E-ENUM in a private mount namespace (fresh tmpfs on /tmp): paths = base in {/tmp, /tmp/, //tmp, /tmp/., /tmp/../tmp, /var/tmp, /tmp/sub, /tmp/link (symlink to a decoy dir), tmp, '', /proc/self/root/tmp, a symlink elsewhere that resolves to /tmp} x leaf in {recognised and near-miss names, '.', '..', traversal, control and non-ASCII bytes, 5000 chars, remote forms, address forms over 12 ip spellings (the peer's own, other v4 / v6 hosts, equivalent long and v4-mapped spellings, a host name, a bracketed form) x 5 ports} (+ every single-character mutation of two accepted paths in thorough) x peer address {v4, v6} x {local, remote} x scripted server {answers 0, answers 0 to a client whose stream carries a peer label different from the socket's real peer, answers -1, closes after the path, closes after reading the client's answer (no verdict), trailing bytes}; recursive snapshots of /tmp + scratch CWD + decoy dirs + the directory $TMPDIR points to (set to somewhere other than /tmp) before / when the server holds the client's answer / after. Oracle: independent path validator written from the statement; at most one directory, only for acceptable paths, mode 0700, answer 0 iff created, snapshot restored afterwards, client nil iff server answered 0. Plus the whole method loop of a client handshake (method lists [FS], [FS,CLAIMTOBE], [CLAIMTOBE,FS], [FS,TOKEN,CLAIMTOBE]) against a scripted server that selects FILESYSTEM in every round and declares each attempt failed: at most one directory per authentication, nothing left behind. Server half (accept only the real owner-only directory, record its owner, record NOTHING for a refused object) against {nothing, dir 0700, dir 0755, dir 0500, dir of another uid, dir with a sub-directory, regular file, symlink to dir / file, fifo}. Non-trivial = every exchange (distinct by construction).",
+		Rule:   "E-ENUM in a private mount namespace (fresh tmpfs on /tmp): paths = base in {/tmp, /tmp/, //tmp, /tmp/., /tmp/../tmp, /var/tmp, /tmp/sub, /tmp/link (symlink to a decoy dir), tmp, '', /proc/self/root/tmp, a symlink elsewhere that resolves to /tmp} x leaf in {recognised and near-miss names, '.', '..', traversal, control and non-ASCII bytes, 5000 chars, remote forms, address forms over 12 ip spellings (the peer's own, other v4 / v6 hosts, equivalent long and v4-mapped spellings, a host name, a bracketed form) x 5 ports} (+ every single-character mutation of two accepted paths in thorough) x peer address {v4, v6} x {local, remote} x scripted server {answers 0, answers 0 to a client whose stream carries a peer label different from the socket's real peer, answers -1, closes after the path, closes after reading the client's answer (no verdict), trailing bytes}; recursive snapshots of /tmp + scratch CWD + decoy dirs + the directory $TMPDIR points to (set to somewhere other than /tmp) before / when the server holds the client's answer / after. Oracle: independent path validator written from the statement; at most one directory, only for acceptable paths, mode 0700, answer 0 iff created, snapshot restored afterwards, client nil iff server answered 0. Plus the whole method loop of a client handshake (method lists [FS], [FS,CLAIMTOBE], [CLAIMTOBE,FS], [FS,TOKEN,CLAIMTOBE]) against a scripted server that selects FILESYSTEM in every round and declares each attempt failed: at most one directory per authentication, nothing left behind. Server half (accept only the real owner-only directory, record its owner, record NOTHING for a refused object) against {nothing, dir 0700, dir 0755, dir 0500, dir of another uid, dir with a sub-directory, regular file, symlink to dir / file, fifo, unix-domain socket with mode 0700}. Non-trivial = every exchange (distinct by construction).",
 		Assume: []string{"runs inside `unshare -m` with a tmpfs on /tmp when available (evidence field namespace); as root"},
 	}
 	p.Gen = func(tier string, yield func(vlib.Case)) {
@@ -451,7 +460,7 @@ func C18Plan() *vlib.Plan {
 			}
 			return res
 		}})
-		for _, obj := range []string{"nothing", "dir0700", "dir0755", "dir0500", "dir0700-other-uid", "dir-with-subdir", "regular-file", "symlink-to-dir", "symlink-to-file", "fifo"} {
+		for _, obj := range []string{"nothing", "dir0700", "dir0755", "dir0500", "dir0700-other-uid", "dir-with-subdir", "regular-file", "symlink-to-dir", "symlink-to-file", "fifo", "unix-socket-0700"} {
 			for _, remote := range []bool{false, true} {
 				obj, remote := obj, remote
 				yield(vlib.Case{ID: fmt.Sprintf("server/%s/remote=%v", obj, remote), Run: func() *vlib.Result {
